@@ -6,6 +6,8 @@ S=/verif/seeded/$1; ID=$2; TIER=${3:-quick}
 W=/tmp/seedrepo-$1-$ID
 rm -rf "$W"; git -C /repo worktree prune
 git -C /repo worktree add -q --detach "$W" HEAD || exit 9
+# untracked hook files of checks still under construction are part of the tree being checked
+(cd /repo && git ls-files --others --exclude-standard | grep -E 'verif_hooks[a-z0-9_]*\.go$|verif_off\.go$' | while read f; do mkdir -p "$W/$(dirname $f)"; cp "$f" "$W/$f"; done)
 cd "$W"
 if ! git apply "$S/patch.diff" 2>/dev/null; then
   if ! git apply --3way "$S/patch.diff" >/dev/null 2>&1; then echo "PATCH-DOES-NOT-APPLY $1"; cd /; git -C /repo worktree remove --force "$W"; exit 8; fi
